@@ -583,7 +583,7 @@ func pick(cands []*expr) int {
 	}
 }
 
-const maxConcretise = 300
+const maxConcretise = 1200
 
 // concretize picks a concrete value for s, forking over the alternatives.
 func concretize(s *sym) value {
